@@ -17,10 +17,47 @@ GENERATORS = []  # functions () -> (filename, text); registered by harness/facts
 _SEEN = set()
 
 
+def source_stamp():
+    """content hash of everything under /repo that any fact is derived from"""
+    import glob
+    import hashlib
+    h = hashlib.sha1()
+    pats = ["floogen/**/*.py", "floogen/**/*.mako", "floogen/examples/*.yml", "hw/**/*.sv", "hw/**/*.svh", "util/*.py",
+            "Bender.yml", "floo_noc.core"]
+    names = set()
+    for pat in pats:
+        names.update(glob.glob(os.path.join(common.REPO, pat), recursive=True))
+    # the file list itself matters too (C20)
+    for root, dirs, files in os.walk(common.REPO):
+        dirs[:] = [d for d in dirs if d not in (".git", "__pycache__")]
+        for f in files:
+            h.update(os.path.relpath(os.path.join(root, f), common.REPO).encode() + b"\0")
+    for n in sorted(names):
+        h.update(n.encode() + b"\0")
+        with open(n, "rb") as f:
+            h.update(f.read())
+    return h.hexdigest()
+
+
 def regenerate():
-    from harness import facts_cli, facts_jobs  # noqa: F401  (register their generators)
+    from harness import facts_cli, facts_jobs, facts_manifest  # noqa: F401  (register their generators)
+    stamp_file = os.path.join(common.COQ, "gen", ".stamp")
+    stamp = source_stamp()
+    gens = list(dict.fromkeys(GENERATORS))
+    if os.path.exists(stamp_file) and open(stamp_file).read() == stamp + "\n" + str(len(gens)):
+        return []   # the sources every fact derives from are byte-identical to the last regeneration
+    errors = _regenerate(gens)
+    if not errors:
+        with open(stamp_file, "w") as f:
+            f.write(stamp + "\n" + str(len(gens)))
+    elif os.path.exists(stamp_file):
+        os.remove(stamp_file)
+    return errors
+
+
+def _regenerate(gens):
     errors = []
-    for g in list(dict.fromkeys(GENERATORS)):
+    for g in gens:
         try:
             name, text = g()
             write_if_changed(os.path.join(common.COQ, "gen", name), text)
